@@ -43,9 +43,14 @@ def bool_formula(expr: ast.AST | str, atom: Callable[[str, ast.AST], Any]) -> An
                 return (op,) + tuple(bool_formula(x, atom) for x in arg.elts)
             if isinstance(arg, ast.GeneratorExp) and len(arg.generators) == 1:
                 gen = arg.generators[0]
-                if isinstance(gen.iter, (ast.Tuple, ast.List)) and isinstance(gen.target, ast.Name) and not gen.ifs:
+                it = gen.iter
+                # set((a, b)) / list([a, b]) / {a, b}: order-insensitive for any/all
+                while isinstance(it, ast.Call) and isinstance(it.func, ast.Name) and it.func.id in ("set", "list", "tuple", "frozenset") \
+                        and len(it.args) == 1:
+                    it = it.args[0]
+                if isinstance(it, (ast.Tuple, ast.List, ast.Set)) and isinstance(gen.target, ast.Name) and not gen.ifs:
                     parts = []
-                    for x in gen.iter.elts:
+                    for x in it.elts:
                         sub = _subst_name(arg.elt, gen.target.id, x)
                         parts.append(bool_formula(sub, atom))
                     return (op,) + tuple(parts)
